@@ -18,6 +18,7 @@ def c07_jobs(tier):
     return [
         Job('rt-default', 'c07', 'rt', q(tier, 300000, 15000000), timeout=q(tier, 900, 7200)),
         Job('rt-float', 'c07', 'rt', q(tier, 100000, 6000000), timeout=q(tier, 900, 7200), defines={'ARDUINOJSON_USE_DOUBLE': 0}),
+        Job('boundary32', 'c07', 'boundary32', q(tier, 2, 4), flavour='asan2', workers=q(tier, 2, 4), timeout=q(tier, 1800, 3600), single_timeout=1200),
         Job('rt-small', 'c07', 'rt', q(tier, 100000, 6000000), timeout=q(tier, 900, 7200), defines={'ARDUINOJSON_SLOT_ID_SIZE': 1, 'ARDUINOJSON_STRING_LENGTH_SIZE': 1, 'ARDUINOJSON_DEBUG': 1}),
     ]
 
@@ -189,6 +190,9 @@ def c02_jobs(tier):
     return [
         Job('default', 'c02', 'gen', q(tier, 60000, 2000000)),
         Job('arduino', 'c02', 'gen', q(tier, 30000, 800000), shim=True),
+        # larger / odd staging buffers of the Arduino String writer (texts longer than the buffer are flushed in pieces)
+        Job('arduino-buffer-300', 'c02', 'gen', q(tier, 15000, 400000), shim=True, defines={'ARDUINOJSON_STRING_BUFFER_SIZE': 300}),
+        Job('arduino-buffer-7', 'c02', 'gen', q(tier, 10000, 200000), shim=True, defines={'ARDUINOJSON_STRING_BUFFER_SIZE': 7}),
         Job('float-small', 'c02', 'gen', q(tier, 20000, 600000), defines={'ARDUINOJSON_USE_DOUBLE': 0, 'ARDUINOJSON_STRING_LENGTH_SIZE': 1, 'ARDUINOJSON_SLOT_ID_SIZE': 1}),
         # other switch-over points between plain and exponent notation, tab indentation
         Job('thresholds-tab', 'c02', 'gen', q(tier, 20000, 600000), defines={'ARDUINOJSON_POSITIVE_EXPONENTIATION_THRESHOLD': '1e3', 'ARDUINOJSON_NEGATIVE_EXPONENTIATION_THRESHOLD': '1e-2', 'ARDUINOJSON_TAB': '"\\t"'}),
